@@ -183,6 +183,20 @@ def _fix_ranges(sf):
             r.body = SubstituteExpressions(vmap).visit(r.body)
 
 
+def _whole_actuals(prog):
+    """documented normalisation of the transformed program: an actual argument `a(:, :)` (every subscript a bare `:`), which the
+    substitution produces for a whole-array dummy passed on to a nested call, is the whole array `a` (FIR has no section actuals)"""
+    def fs(stmts):
+        out = []
+        for s in stmts:
+            if h(s) == 'callsub':
+                s = list(s[:2]) + [[A('v'), a[1]] if h(a) == 'sec' and all(
+                    h(d) == 'rng' and all(str(x) == 'none' for x in d[1:]) for d in a[2:]) else a for a in s[2:]]
+            out.append(s)
+        return out
+    return fir.canon(fir.map_program(prog, fs=fs))
+
+
 def emit_internal(prog):
     """the main unit with every other unit as an internal procedure (CONTAINS)"""
     m = str(prog[1])
@@ -237,7 +251,7 @@ def real_apply(mode, prog):
     try:
         text = fgen(sf.ir)
         _fix_ranges(sf)
-        tp = fir.export_unit(sf, main=m)
+        tp = _whole_actuals(fir.export_unit(sf, main=m))
     except fir.Unsupported as e:
         raise TransformError(f'transformed IR is outside FIR: {e.kind}') from e
     except Exception as e:
@@ -864,7 +878,7 @@ class C28(Prop):
 
 # ---------------------------------------------------------------- constant parameters
 
-PARAM_CLASSES = ['param-print-not-substituted', 'param-nested-initialiser', 'param-type-conversion']
+PARAM_CLASSES = ['param-print-not-substituted', 'param-nonliteral-initialiser', 'param-type-conversion']
 
 
 def gen_param_program(rng):
@@ -904,22 +918,20 @@ def param_class(prog):
             if h(s) == 'print' and any(ex_names(e) & set(pd) for e in s[1:]):
                 return 'param-print-not-substituted'
         for d in pd.values():
-            if ex_names(d[5]) & set(pd):
-                return 'param-nested-initialiser'
+            if h(d[5]) not in ('i', 'r', 'b'):
+                return 'param-nonliteral-initialiser'
         for d in pd.values():
             ty = str(d[2])
             e = d[5]
             lit_ty = {'i': 'int', 'r': 'real', 'b': 'logical'}.get(h(e[1]) if h(e) == 'neg' else h(e))
             if lit_ty is not None and lit_ty != ty:
                 return 'param-type-conversion'
-            if lit_ty is None and ty != 'logical':
-                return 'param-type-conversion'   # an initialiser expression: conversion cannot be excluded syntactically
     return None
 
 
 # ---------------------------------------------------------------- functions (direct oracle only, thorough tier)
 
-FUN_CLASSES = ['fun-result-conversion']
+FUN_CLASSES = ['fun-result-conversion', 'fun-intrinsic-call']
 
 
 def gen_fun_request(rng):
@@ -954,7 +966,7 @@ def fun_source(kind, a, b, c, conv, variant):
 def fun_oracle(req):
     import subprocess, tempfile, os
     kind, a, b, c, conv, variant = str(req[1]), int(str(req[2])), int(str(req[3])), int(str(req[4])), str(req[5]) == 'conv', int(str(req[6]))
-    cls = 'fun-result-conversion' if conv else None
+    cls = 'fun-result-conversion' if conv else 'fun-intrinsic-call' if (kind == 'contained' and variant == 3) else None
     src = fun_source(kind, a, b, c, conv, variant)
     from loki import Sourcefile, fgen
     from loki.frontend import FP
